@@ -89,9 +89,12 @@ CHECKS = {
          "form is a rotation of the input and <= every rotation in the order (names tuple, structure tuple) by code points, "
          "turns counts the rotations from the canonical form back to the input, the canonical form is the same for every "
          "rotation of the input, and two good descriptions share a canonical form only if one is a rotation of the other. "
-         "Unbounded (induction / group argument), including identical strands and rotational symmetry. The registry-level "
-         "clause (a rotation of a live complex resolves to that object) is exercised on the implementation on every run "
-         "(orbits presented in random order, named/unnamed/other-named) and belongs to the registry machine of C01.",
+         "Unbounded (induction / group argument), including identical strands and rotational symmetry. Registry level (on "
+         "the machine of C01, invariant ROK preserved along every history of well-formed requests): all n rotations of a live "
+         "complex are registered and bound to it; a request of ANY rotation leaves the state unchanged and is answered "
+         "Returned (own name) / SingletonError with existing = that object (no or fresh name) / SingletonError without "
+         "existing (name bound to another live object), never Created; the canonical form stored in a created object equals "
+         "the one computed with an empty registry. Orbits are also presented to the implementation in random order on every run.",
     design="DESIGN.md 5, 7 (C02)", technique="Coq proof (orbit of rotate_complex_once, minimality by sorted insertion) + model/implementation correspondence"),
  "C20": dict(
     text="Proof: the legacy DSD_Complex canonical-form search (in-place rotation, first-occurrence table, memory check) "
@@ -140,10 +143,13 @@ CHECKS = {
     text="Proof, all well-formed structures: the strands of the parts partition the input, in increasing original order, content "
          "unchanged; every part's table is the input table restricted and re-indexed (no pair lost, none introduced); every "
          "part is well-formed and connected and is exactly one connectivity class; a connected complex is returned unchanged; "
-         "never out of fuel, never an error on well-formed input; the dot-bracket wrapper is characterised. Partial: the "
-         "object level with registries is modelled and corresponds on every run; the clause 'splitting twice always yields "
-         "identical objects' is REFUTED in the model with a witness replayed on the implementation (recorded known finding); "
-         "the positive registry-level clauses are not proved.",
+         "never out of fuel, never an error on well-formed input; the dot-bracket wrapper is characterised. Object level (Split "
+         "operation on the registry machine): each yielded object is the registered owner of its component's canonical form "
+         "(the live one if it exists, else created), the only possible raise is SingletonError without `existing`, exactly when "
+         "the automatic name c<ID> is bound to a live complex that is not the owner — which includes the case where no new "
+         "component is needed: 'splitting twice always yields identical objects' is REFUTED with a witness replayed on the "
+         "implementation (recorded known finding). Partial: that the computed components are well-formed non-empty complexes "
+         "over the source's domains (split_parts_good_full) is a hypothesis of the object-level theorem.",
     design="DESIGN.md 5, 7 (C09)", technique="Coq proof (tree surgery + induction on fuel) + model/implementation correspondence"),
  "C01": dict(
     text="Proof: the registry invariant RegOK (registry values are live objects of exactly that class under their name / their "
@@ -154,7 +160,9 @@ CHECKS = {
          "and `existing` is a live canon owner; a name-only request is a pure lookup; counters move only on Created / failing "
          "user constructor. Tie: differential correspondence of whole histories (depth-3 exhaustive per class, random over a "
          "zoo of 23 classes), every step compared (outcome, existing, identities, both registries, attributes, counters, "
-         "weakref liveness). Partial: name_only for domains at operation level, exact counter increment.",
+         "weakref liveness); counters move by exactly +1 of the addressed class and only on Created / failing user constructor. "
+         "Name-only for domains is proved for names with an unstarred base and refuted for double-starred names (same family "
+         "as the recorded C04 finding).",
     design="DESIGN.md 6, 7 (C01)", technique="Coq proof (invariant by induction over operation lists on a heap/registry state machine) + model/implementation correspondence for histories"),
  "C04": dict(
     text="Proof: complementary domains of one class have equal lengths in every reachable state, for arbitrary nonzero class "
